@@ -66,6 +66,8 @@ def sensitivity(args):
             sigs = [l.strip() for l in cr.stdout.splitlines() if l.strip().startswith("signature:")]
             status = "caught" if (cr.returncode == 1 and lines) else ("MISSED" if cr.returncode == 0 else
                                                                       "HARNESS-ERROR")
+            if "NEUTRAL" in name:      # negative control: the property still holds, the check must stay quiet
+                status = {"MISSED": "quiet-as-expected", "caught": "FALSE-ALARM"}.get(status, status)
             results.append({"mutant": name, "property": prop, "status": status, "check_rc": cr.returncode,
                             "check_wall_s": round(dt, 1), "signatures": sigs[:4], "suite": tests})
             print("%-70s %s  (%.0fs)%s" % (name, status, dt, "" if tests is None else "  suite=" + tests))
@@ -80,7 +82,7 @@ def sensitivity(args):
             shutil.rmtree(scratch, ignore_errors=True)
     os.makedirs(os.path.join(VERIF_DIR, "selftest"), exist_ok=True)
     rep = {"results": results, "wall_s": round(_real_time.monotonic() - t0, 1),
-           "caught": sum(r["status"] == "caught" for r in results), "total": len(results)}
+           "caught": sum(r["status"] in ("caught", "quiet-as-expected") for r in results), "total": len(results)}
     if not only:
         with open(os.path.join(VERIF_DIR, "selftest", "sensitivity_last.json"), "w") as f:
             json.dump(rep, f, indent=1, sort_keys=True)
